@@ -441,6 +441,8 @@ impl Search {
             // The search was stopped somewhere below: `score` comes from an unfinished subtree, so
             // it must neither be cached nor used to choose a move here.
             if !self.is_running() || self.limits_exceeded(start) {
+                #[cfg(rce_verif)]
+                crate::verif::abort("ab-child", self.info.nodes, self.info.depth);
                 return 0;
             }
 
